@@ -89,6 +89,7 @@ FaultOf(ev) == (ev.flt % 4) + (IF \E g \in {0, 1, 2, 3, 5} : Bit(ev.gf, g) THEN 
 LedgerOK(ev, req, a) ==
   /\ ev.live - ev.live0 <= 2                     \* retained state grows by at most a record and a node
   /\ ev.live >= 0
+  /\ (Chk("EQ") /\ ev.eq = 1) => ev.live = Log[l - 1].live /\ ev.bytes = Log[l - 1].bytes   \* twins hold the same
   /\ (l > 1 /\ Log[l - 1].e = "req" /\ Log[l - 1].ifc = ev.ifc /\ Log[l - 1].b = ev.b
         /\ Log[l - 1].fill = ev.fill /\ FaultOf(Log[l - 1]) = 0 /\ FaultOf(ev) = 0)
        => ev.live <= Log[l - 1].live             \* idempotence: the same frame again retains nothing more
